@@ -169,7 +169,7 @@ def _grid(case, lay):
     rng = random.Random(case["seed"])
     cfg = gen_config(rng, case["Pmax"], 9)
     shape, nprocs, layouts, dtype = cfg["shape"], cfg["nprocs"], cfg["layouts"], cfg["dtype"]
-    if dtype == "int":
+    if dtype not in ("float", "complex"):
         dtype = "float"
     P = int(np.prod(nprocs))
     nd = len(shape)
